@@ -119,3 +119,88 @@ func genUnitsDoc(r *rng.R, id int) Doc {
 	}
 	return Doc{ID: id, Seed: seed, HTML: body.String(), Feats: []string{"font-relative-units", "no-oof,no-grid"}}
 }
+
+// genSvgChainDoc: gradients / patterns linked by href in chains of 3 to 5 elements (a -> b -> c …),
+// the attributes the drawing needs (x1/x2/y1/y2, gradientUnits, spreadMethod, gradientTransform,
+// stops, pattern size) set only at the far end — or spread over the chain —, the elements written
+// in a shuffled order.  What the first element inherits must not depend on the order in which the
+// definitions are visited.
+func genSvgChainDoc(r *rng.R, id int) Doc {
+	seed := r.Seed()
+	var defs []string
+	var uses strings.Builder
+	for c, nc := 0, r.Range(1, 3); c < nc; c++ {
+		n := r.Range(3, 5)
+		kind := rng.Pick(r, "linearGradient", "linearGradient", "radialGradient", "pattern")
+		name := func(i int) string { return fmt.Sprintf("c%dn%d", c, i) }
+		var attrs []string
+		switch kind {
+		case "linearGradient":
+			attrs = []string{fmt.Sprintf(`x1="%d%%"`, r.Range(0, 40)), fmt.Sprintf(`x2="%d%%"`, r.Range(50, 100)), fmt.Sprintf(`y2="%d%%"`, r.Range(0, 100)),
+				`spreadMethod="` + rng.Pick(r, "reflect", "repeat", "pad") + `"`, `gradientUnits="` + rng.Pick(r, "objectBoundingBox", "userSpaceOnUse") + `"`,
+				fmt.Sprintf(`gradientTransform="rotate(%d)"`, r.Range(0, 90))}
+		case "radialGradient":
+			attrs = []string{fmt.Sprintf(`cx="%d%%"`, r.Range(20, 80)), fmt.Sprintf(`cy="%d%%"`, r.Range(20, 80)), fmt.Sprintf(`r="%d%%"`, r.Range(20, 70)),
+				fmt.Sprintf(`fx="%d%%"`, r.Range(30, 70)), `spreadMethod="` + rng.Pick(r, "reflect", "repeat") + `"`}
+		default:
+			attrs = []string{fmt.Sprintf(`width="%d"`, r.Range(5, 20)), fmt.Sprintf(`height="%d"`, r.Range(5, 20)), `patternUnits="userSpaceOnUse"`,
+				fmt.Sprintf(`x="%d"`, r.Range(0, 5)), fmt.Sprintf(`patternTransform="rotate(%d)"`, r.Range(0, 45))}
+		}
+		content := `<stop offset="0" stop-color="red"/><stop offset="0.5" stop-color="lime" stop-opacity="0.8"/><stop offset="1" stop-color="blue"/>`
+		if kind == "pattern" {
+			content = `<rect width="4" height="4" fill="navy"/><circle cx="8" cy="8" r="3" fill="orange"/>`
+		}
+		spread := r.P(1, 3) // attributes spread over the chain instead of all at the far end
+		for i := 0; i < n; i++ {
+			href := ""
+			if i < n-1 {
+				href = fmt.Sprintf(` %s="#%s"`, rng.Pick(r, "href", "xlink:href"), name(i+1))
+			}
+			var own []string
+			for k, a := range attrs {
+				if (spread && k%n == i && i > 0) || (!spread && i == n-1) {
+					own = append(own, a)
+				}
+			}
+			inner := ""
+			if i == n-1 || (i == 0 && r.P(1, 3)) {
+				inner = content
+			}
+			defs = append(defs, fmt.Sprintf(`<%s id="%s"%s %s>%s</%s>`, kind, name(i), href, strings.Join(own, " "), inner, kind))
+		}
+		fmt.Fprintf(&uses, `<rect x="%d" y="5" width="80" height="50" fill="url(#%s)" stroke="url(#%s)" stroke-width="4"/>`, 10+c*90, name(0), name(r.Intn(2)))
+	}
+	for i := len(defs) - 1; i > 0; i-- {
+		j := r.Intn(i + 1)
+		defs[i], defs[j] = defs[j], defs[i]
+	}
+	svg := `<svg xmlns="http://www.w3.org/2000/svg" xmlns:xlink="http://www.w3.org/1999/xlink" width="300" height="60" viewBox="0 0 300 60"><defs>` +
+		strings.Join(defs, "") + `</defs>` + uses.String() + `</svg>`
+	html := `<style>@page{size:340px 200px;margin:10px}</style><p>` + text(r, 3) + `</p>` + svg
+	return Doc{ID: id, Seed: seed, HTML: html, Feats: []string{"svg-href-chain", "no-oof,no-grid"}}
+}
+
+// genSvgTextDoc: SVG <text> with non-default font properties (inline <svg> or an SVG image) — the
+// "earlier document" of the history scenario.
+func genSvgTextDoc(r *rng.R, id int) Doc {
+	seed := r.Seed()
+	svg := fmt.Sprintf(`<svg xmlns="http://www.w3.org/2000/svg" width="200" height="60"><text x="5" y="30" font-family="%s" font-size="%d" font-weight="%s" font-style="%s">%s</text><text x="5" y="50" style="font-size:%dpx;font-family:monospace">%s</text></svg>`,
+		rng.Pick(r, "monospace", "weasyprint", "DejaVu Serif", "serif"), r.Range(5, 40), rng.Pick(r, "bold", "900", "100", "normal"), rng.Pick(r, "italic", "oblique", "normal"),
+		text(r, 2), r.Range(6, 30), text(r, 1))
+	html := `<p>` + text(r, 3) + `</p>` + svg
+	if r.P(1, 3) {
+		html = `<p>` + text(r, 2) + `</p><img src="data:image/svg+xml;utf8,` + strings.NewReplacer("#", "%23", `"`, "'").Replace(svg) + `">`
+	}
+	return Doc{ID: id, Seed: seed, HTML: html, Feats: []string{"svg-text", "no-oof,no-grid"}}
+}
+
+// genPlainDoc: relies on the INITIAL font properties (no font declaration at all, rem / em / ex units).
+func genPlainDoc(r *rng.R, id int) Doc {
+	seed := r.Seed()
+	var b strings.Builder
+	b.WriteString(`<style>@page{size:400px 300px;margin:1rem}</style>`)
+	for i, n := 0, r.Range(2, 5); i < n; i++ {
+		fmt.Fprintf(&b, `<p style="margin-left:%drem;text-indent:%dex;width:%dem">%s</p>`, r.Range(0, 3), r.Range(0, 4), r.Range(8, 20), text(r, r.Range(3, 15)))
+	}
+	return Doc{ID: id, Seed: seed, HTML: b.String(), Feats: []string{"initial-font", "no-oof,no-grid"}}
+}
